@@ -158,10 +158,28 @@ def generate(prop, g, tier):
     elif prop == "C07" and g.coin(0.1):
         cfg["knobs"]["queue_size"] = g.pick([1, 3])
     if prop == "C11":
+        gen_filter_bait(g, cfg)
         gen_filters(g, cfg)
     if prop == "C09":
         gen_fault(g, cfg)
     return cfg
+
+
+FILTER_TAGS = ["x", "y", "z", "xy", "x-y", "yz"]
+
+
+def gen_filter_bait(g, cfg):
+    """things a filter must not be confused by: a tag given as a plain string, tags that contain other tags, operations that
+    are shared between tasks or named like another task"""
+    tasks = [t for _, _, t in leaf_tasks(cfg["schedule"])]
+    for t in tasks:
+        k = g.weighted([5, 3, 2])
+        if k == 1:
+            t["tags"] = g.sample(FILTER_TAGS, g.choose(3))
+        elif k == 2:
+            t["tags"] = g.pick(FILTER_TAGS)  # a single tag may be given as a string
+        if g.coin(0.3):
+            t["opname"] = g.pick([x["name"] for x in tasks if x is not t] + ["shared-op"])
 
 
 def gen_filters(g, cfg):
@@ -172,11 +190,12 @@ def gen_filters(g, cfg):
     for _ in range(n):
         k = g.weighted([4, 3, 3, 3])
         if k == 0:
-            filters.append(g.pick(tasks)["name"])
+            t = g.pick(tasks)
+            filters.append(t["opname"] if "opname" in t and g.coin(0.4) else t["name"])
         elif k == 1:
             filters.append("type:" + g.pick(tasks)["op"])
         elif k == 2:
-            filters.append("tag:" + g.pick(TAGS))
+            filters.append("tag:" + g.pick(FILTER_TAGS))
         elif pars:
             # all tasks of one parallel element
             p = g.pick(pars)
@@ -246,7 +265,8 @@ def matches(t, flt):
     if flt.startswith("type:"):
         return t["op"] == flt[5:]
     if flt.startswith("tag:"):
-        return flt[4:] in (t.get("tags") or [])
+        tags = t.get("tags") or []
+        return flt[4:] in ([tags] if isinstance(tags, str) else tags)
     return t["name"] == flt
 
 
@@ -596,9 +616,9 @@ class RaceHarness(Harness):
                 for el in ch_.schedule:
                     if hasattr(el, "tasks"):
                         loaded.append(("parallel-clients", el.clients))
-                        loaded.append(("parallel", [(t.name, t.operation.type, t.clients, t.iterations, t.warmup_iterations, t.time_period, sorted(t.tags), t.completes_parent, t.any_completes_parent) for t in el.tasks]))
+                        loaded.append(("parallel", [(t.name, t.operation.type, t.clients, t.iterations, t.warmup_iterations, t.time_period, sorted([t.tags] if isinstance(t.tags, str) else t.tags), t.completes_parent, t.any_completes_parent) for t in el.tasks]))
                     else:
-                        loaded.append(("task", (el.name, el.operation.type, el.clients, el.iterations, el.warmup_iterations, el.time_period, sorted(el.tags), el.completes_parent, el.any_completes_parent)))
+                        loaded.append(("task", (el.name, el.operation.type, el.clients, el.iterations, el.warmup_iterations, el.time_period, sorted([el.tags] if isinstance(el.tags, str) else el.tags), el.completes_parent, el.any_completes_parent)))
                 system.loaded_schedule = loaded
 
         def handled(cell, msg):
@@ -1113,7 +1133,7 @@ class RaceHarness(Harness):
             return
 
         def sig(t, cb):
-            return (t["name"], t["op"], t["clients"], t.get("iterations"), t.get("warmup-iterations"), t.get("time-period"), sorted(t.get("tags") or []), cb == t["name"], cb == "any")
+            return (t["name"], t["op"], t["clients"], t.get("iterations"), t.get("warmup-iterations"), t.get("time-period"), sorted([t["tags"]] if isinstance(t.get("tags"), str) else (t.get("tags") or [])), cb == t["name"], cb == "any")
 
         want = []
         for el in expected:
